@@ -82,6 +82,36 @@ func runPSHist(payload []*Sx) *Sx {
 		case "add":
 			ok := ps.Add(cedar.PolicyID(op.List[1].Str()), sharedPolicy(int(mustInt64(op.List[2].Atom))))
 			r = L(A("bool"), A(fmt.Sprint(ok)))
+		case "iterrm":
+			// removing entries that the iteration has not reached yet: they must not be produced afterwards (Go map semantics).
+			// Done on a copy of the set, so the history itself is unchanged: the result is that of `all`.
+			r = bindingsSx(ps.Map())
+			target := cedar.PolicyID(op.List[1].Str())
+			for variant := 0; variant < 2; variant++ {
+				clone := cedar.NewPolicySet()
+				for k, v := range ps.All() {
+					clone.Add(k, v)
+				}
+				gone := map[cedar.PolicyID]bool{}
+				first := true
+				for k, pol := range clone.All() {
+					if gone[k] || pol == nil {
+						r = L(A("iteration-produced-a-removed-entry"), AS(string(k)))
+					}
+					if variant == 0 && k != target && !gone[target] {
+						gone[target] = clone.Remove(target)
+					}
+					if variant == 1 && first {
+						for id := range clone.Map() {
+							if id != k {
+								clone.Remove(id)
+								gone[id] = true
+							}
+						}
+					}
+					first = false
+				}
+			}
 		case "snap":
 			m := cedar.PolicyMap{}
 			for k, v := range ps.All() {
